@@ -423,3 +423,12 @@ Definition format_h2_response_headers (normalize_outbound is_h2 : bool) (st : Z)
   let h := (P_STATUS, dec_of_Z st) :: fields in
   if is_h2 then (if normalize_outbound then normalize_h2_headers h else h)
   else normalize_h1_headers h.
+
+(* ---------- emitting a request is a pure function of the request: format_h2_request_headers works on
+   headers.copy() before headers.pop(b"host"), Http1Client.send on request.copy().  [emit_request] returns what is
+   emitted together with the header fields the live request (flow.request) has afterwards; a later emission of the same
+   flow (client replay, replay of a saved flow) starts from that state. *)
+Definition emit_request (normalize_outbound is_h2 : bool) (method scheme authority path : bytes) (fields : headers)
+    : headers * headers :=
+  (format_h2_request_headers normalize_outbound is_h2 method scheme authority path fields, fields).
+Definition emit_h1_request (r : h2_request) : request_head * headers := (h1_of_h2_request r, hq_fields r).
